@@ -11,6 +11,8 @@ NOTE = ("Trusts clang 14's parser, Sema and CFG builder, the condition normalisa
         "Value clauses listed as not decided in the evidence are outside the claim.")
 
 CLAIMED = {
+ "C11": ("E-PATH", "Static rules on the ruleset-cgroup instance management: per-iteration at-most-once / exactly-once execution of the matching cgroup's instance with condition splitting on the xattr filter, creation only when absent and keyed consistently by absolute path, visited marking, erase-in-iteration freedom of the drop loop, prerun reaching every live instance, fresh plugin ownership of new instances and the default cgroup argument. Decided for all histories of cgroups appearing/disappearing because it is a property of the code paths; detector window values are not decided.", "4/C11"),
+ "C13": ("E-PATH", "Pairing and ordering rules on the drop-in machinery: a successful add is exactly emplace_front + markDropInTargeted + stat(+1), a refused add leaves nothing; removal erases by tag, untargets once per erased drop-in and subtracts the same count; partially added units are cleaned up; merge moves parts only under their permission flag; targets are fresh compiles of the base; updates remove before re-adding; drop-ins front-to-back before their base. These are the structural pre-conditions of reversibility; the state equation over all operation sequences is not decided.", "4/C13"),
  "C07": ("E-PATH", "Static path analysis of the prekill-hook protocol: at most one invocation per candidate and only inside the timeout window; an unfinished invocation is always stored and DEFER returned with no kill; the invocation object is destroyed (local scope exit / state reset) before any kill continuation; a second invocation can never be stored; the deferred victim is re-resolved by path and inode id or the cycle fails without a kill; Engine::firePrekillHook walks the priority list from its back, fires the first matching hook and returns; hooks are inserted by reverse iteration, drop-in hooks only after all rulesets were accepted. Holds for all hook lists, completion times and histories as a property of the CFG; hook timing and hook plugin behaviour are not decided.", "4/C07"),
  "C17": ("E-PATH", "Static order / dominance / value-shape rules on the kill accounting: uuid+initiation xattrs before every kill sink, completion xattr with the returned nrKilled on every path to the final return, +1 / +count on both attribute copies, nrKilled incremented only on the kill(2)==0 edge, counter and kmsg record dominated by 'a process was signalled' (counter also by !dry), kmsg write independent of log silencing, record fields, uuid provenance, the PluginRet table of BaseKillPlugin::run, and an exception-escape analysis showing that arbitrary pre-existing xattr text cannot throw out of the helpers. Arithmetic on xattr values is not decided.", "4/C17"),
  "C03": ("E-PATH", "Expression-tree rule on the single comparator used by all kill plugins (preference first, descending; enum values PREFER>NORMAL>AVOID), sibling agreement of the five rankForKilling overrides, exhaustive path enumeration of readKillPreferenceAt (prefer probed before avoid), guard dominance of the DFS (recursive_, memory.oom.group, populated), fallback reachability after a failed kill, pop/reverse/push order. Decides the structure for all trees and xattr/outcome assignments; std::sort's result on concrete metric values is not decided.", "4/C03"),
